@@ -31,7 +31,8 @@ def hang_signature(kind, report, default, sc=None):
     writers = set()
     for idx, name, state, why, stack in report:
         fns = [f[2] for f in stack]
-        if idx == 0 and ('__exit__' in fns or '__aexit__' in fns) and 'stop' in fns:
+        if idx == 0 and ('__exit__' in fns or '__aexit__' in fns) and ('stop' in fns or 'join' in fns):
+            # inside servlet.stop() -> join of a worker, or joining the onboarding / gather thread afterwards
             root_in_exit = True
         if why in ('write', 'sem') and 'put' in fns:
             for fn, ln, fname in stack:
